@@ -28,9 +28,11 @@ def plan(tier, seed):
     shape("connect-then-renamescript", "connect*,renamescript")
     shape("connect-then-all-ops", "connect*,havespace,listscripts,getscript,putscript,checkscript,setactive",
           {"C10_SASL": "0,5", "C10_MECHS": "0,4"})
-    shape("tls-then-deletescript", "connect-tls*,deletescript", {"C10_SASL": "0,5,1" if q else "0,1,5,3"})
+    shape("tls-then-deletescript", "connect-tls*,deletescript",
+          {"C10_SASL": "0,5,1" if q else "0,1,5,3", "C10_FREEZE": "okform" if q else ""})
     shape("login-then-connect-then-putscript", "connect!,connect*,putscript")
-    shape("login-then-tls-then-listscripts", "connect!,connect-tls*,listscripts", {"C10_SASL": "0,5", "C10_MECHS": "0,4"})
+    shape("login-then-tls-then-listscripts", "connect!,connect-tls*,listscripts",
+          {"C10_SASL": "0,5", "C10_MECHS": "0,4", "C10_FREEZE": "okform"})
     if not q:
         shape("connect-connect-getscript", "connect*,connect*,getscript", {"C10_SASL": "0,5", "C10_MECHS": "0,4"})
         shape("tls-connect-deletescript", "connect-tls*,connect*,deletescript", {"C10_SASL": "0,5", "C10_MECHS": "0"})
@@ -42,7 +44,7 @@ def plan(tier, seed):
                 bounds={"histories": "%d call shapes: every script operation before any connect; connect / connect with STARTTLS "
                                      "followed by operations; a successful login followed by a second connect (plain or TLS) and an "
                                      "operation%s" % (len(conds) - 1, "" if q else "; two explored connects in a row"),
-                        "server": "at each handshake step (greeting, STARTTLS reply, greeting after TLS, AUTHENTICATE reply): OK / NO / "
+                        "server": "at each handshake step (greeting, STARTTLS reply, greeting after TLS, AUTHENTICATE reply): OK (quoted text, or a response code with a literal text that itself looks like a status line) / NO / "
                                   "BYE / silence / malformed line; connection refused; TLS handshake ok / SSLError; STARTTLS offered or "
                                   "not; SASL lists before and after TLS chosen independently from {PLAIN, LOGIN PLAIN, capability "
                                   "missing, only unimplemented mechanisms}; authmech in {None, PLAIN, X-UNKNOWN}"},
